@@ -3,6 +3,7 @@ import RegexVerif.Model.Backtrack
 import RegexVerif.Driver.SpecIO
 import RegexVerif.Driver.Writer
 import RegexVerif.Driver.Compile
+import RegexVerif.Driver.Pipeline
 
 namespace RegexVerif.Driver
 open RegexVerif Sexp Spec
@@ -13,6 +14,7 @@ def handleC01 (args : List Sexp) : String :=
   match args with
   | .atom "writer" :: rest => handleWriter rest
   | .atom "compile" :: rest => handleCompile rest
+  | .atom "pipeline" :: rest => handlePipeline rest
   | [.atom "find", rtl, start, ng, p, e] =>
     match rtl.bool?, start.nat?, ng.nat?, pat? p, env? e with
     | some rtl, some start, some ng, some p, some e => renderResult ng (Spec.findRun e p rtl start)
